@@ -455,9 +455,14 @@ fn gen_md_clean(rng: &mut Rng, count: usize, cases: &mut Vec<Case>) {
         let b = ((lat0, lon0), (lat0 + h, lon0 + w));
         let mut qs = Vec::new();
         for _ in 0..rng.range(2, 8) {
-            let q = match rng.below(4) {
+            let q = match rng.below(7) {
                 0 => (lat0 + rng.range(0, h as i64) as i32, lon0 + rng.range(0, w as i64) as i32),
                 1 => (*rng.pick(&[lat0, lat0 + h]), lon0 + rng.range(0, w as i64) as i32),
+                // the western / eastern edge away from the corners, and the corners themselves (C19-r4m1: a
+                // half-open longitude range in min_distance's "inside" test)
+                2 => (lat0 + rng.range(0, h as i64) as i32, *rng.pick(&[lon0, lon0 + w])),
+                3 => (lat0 + h / 2, lon0 + w),
+                4 => (*rng.pick(&[lat0, lat0 + h]), *rng.pick(&[lon0, lon0 + w])),
                 _ => {
                     let dlat = rng.range(10_000, 3_000_000) as i32;
                     let dlon = rng.range(1, 300_000) as i32;
